@@ -4,7 +4,7 @@
     Models: Model/GitChanges.v (internal/git/changes.go) and Model/GitBranch.v (internal/discovery/git_branch.go),
     both as of the current tree (after fix commits a826206, 4412e3a, 4dd7734, d9e7954). *)
 From Coq Require Import List String Ascii ZArith NArith Bool Lia Permutation.
-From PintV Require Import Common.Bytes Gen.Tables Model.GitBranch Proofs.C03_match Proofs.C03_state Proofs.C03_sort Proofs.C03_added Proofs.C03_merge Proofs.C03_final.
+From PintV Require Import Common.Bytes Gen.Tables Model.GitBranch Proofs.C03_match Proofs.C03_state Proofs.C03_sort Proofs.C03_added Proofs.C03_merge Proofs.C03_final Proofs.C03_skip.
 From PintV Require Model.GitChanges Proofs.C03_changes Proofs.C03_unquote Proofs.C03_faithful Proofs.C03_history.
 Import ListNotations.
 Open Scope string_scope.
@@ -282,6 +282,28 @@ Theorem C03_final_state_origin : forall (glob : list entry) (cs : list change_in
 Proof. exact final_state_origin. Qed.
 Print Assumptions C03_final_state_origin.
 
+(** ** 6b. "A changed rule is never skipped", end to end over GitBranchFinder.Find.  Take a rule [g] of the HEAD tree that is
+    the first glob entry at its path and rule position (GlobFinder lists every rule once; [first_at]).  If the branch has a
+    change with a HEAD entry at that path and position, and every such entry differs in content from every base rule of
+    its change, then in the list `pint ci` lints [g] is Added, Modified or Moved -- never Noop -- i.e. in a state CIStates
+    selects (C03_state_tables), so every check restricted to changed rules runs on it.  The merge loop cannot lose the state:
+    a matching branch entry always overwrites the first entry at its path and position, and later entries can only
+    overwrite it with the state of another matching entry. *)
+Theorem C03_changed_final_never_skipped : forall (glob : list entry) (cs : list change_in) (i : nat) (g : entry),
+  nth_error glob i = Some g -> first_at glob i g ->
+  (exists c a, In c cs /\ In a (ci_after c) /\ e_path a = e_path g /\ is_same a g = true) ->
+  (forall c a, In c cs -> In a (ci_after c) -> e_path a = e_path g -> is_same a g = true ->
+     forall b, In b (ci_before c) -> is_identical a b = false) ->
+  exists g', nth_error (find glob cs) i = Some g' /\ strip g' = strip g /\
+             e_state g' <> Noop /\ state_matches ci_states (e_state g') = true.
+Proof.
+  intros glob cs i g Hn Hf Hex Hd.
+  destruct (changed_final_not_noop glob cs i g Hn Hf Hex Hd) as (g' & H1 & H2 & Hs).
+  exists g'. split; auto. split; auto.
+  destruct Hs as [Hs|[Hs|Hs]]; rewrite Hs; split; try discriminate; reflexivity.
+Qed.
+Print Assumptions C03_changed_final_never_skipped.
+
 (** ** 7. The converse for ANY branch history (sections 1 and 6 composed; [PH.history_changes] = the change_in list
     GitBranchFinder.Find builds from git.Changes's result, i.e. [classify] without the text-level log parsing).
     Under [log_faithful], with a parser that labels entries with the path name it was given and finds no rules in an
@@ -321,6 +343,41 @@ Proof.
   exact (PH.history_untouched_noop n snap cidx log type_at body_at body_lines blame LF TF BF parse PP PN glob i g Hn Hs Hp Hun).
 Qed.
 Print Assumptions C03_history_untouched_noop.
+
+(** ... and "a changed rule is never skipped" for ANY branch history: if the HEAD version of the file at p has a rule at
+    [g]'s position and every such rule differs in content from every rule of the base version (fork-point content of the file
+    p descends from; none if created on the branch), then [g] -- the first glob entry at its path and position -- is Added,
+    Modified or Moved in the list `pint ci` lints: a state CIStates selects. *)
+Theorem C03_history_changed_never_skipped :
+  forall (n : nat) (snap : nat -> string -> option N) (cidx : string -> nat) (log : list GC.entry)
+         (type_at : string -> string -> GC.ptype) (body_at : string -> string -> N)
+         (body_lines : N -> N) (blame : string -> string -> list (string * Z * Z))
+         (parse : N -> string -> list entry),
+    PF.log_faithful n snap cidx log ->
+    (forall e, In e log -> forall p, type_at (GC.parent (GC.le_commit e)) p = GC.Missing <-> snap (PF.idx cidx e - 1) p = None) ->
+    (forall e, In e log -> forall p, body_at (GC.parent (GC.le_commit e)) p = enc (snap (PF.idx cidx e - 1) p) /\
+                                     body_at (GC.le_commit e) p = enc (snap (PF.idx cidx e) p)) ->
+    (forall id q a, In a (parse id q) -> e_path a = q) ->
+    (forall q, parse 0%N q = []) ->
+    forall (glob : list entry) (i : nat) (g : entry) (ch : GC.change),
+      nth_error glob i = Some g -> first_at glob i g -> e_path g <> "" ->
+      GC.get_change_by_path (GC.fold_log type_at (fun _ => true) (fun _ => false) log) (e_path g) = Some ch ->
+      GC.ch_status ch <> GC.st "D" ->
+      let head_rules := parse (enc (snap n (e_path g))) (e_path g) in
+      let base_rules := if String.eqb (GC.ch_before ch) "" then []
+                        else parse (enc (snap 0 (GC.ch_before ch))) (GC.ch_before ch) in
+      (exists a, In a head_rules /\ is_same a g = true) ->
+      (forall a, In a head_rules -> is_same a g = true -> forall b, In b base_rules -> is_identical a b = false) ->
+      exists g', nth_error (find glob (PH.history_changes log type_at body_at body_lines blame parse)) i = Some g' /\
+                 strip g' = strip g /\ e_state g' <> Noop /\ state_matches ci_states (e_state g') = true.
+Proof.
+  intros n snap cidx log type_at body_at body_lines blame parse LF TF BF PP PN glob i g ch Hn Hf Hp Hget HD head_rules base_rules Hex Hd.
+  destruct (PH.history_changed_not_noop n snap cidx log type_at body_at body_lines blame LF TF BF parse PP PN glob i g ch Hn Hf Hp Hget HD Hex Hd)
+    as (g' & H1 & H2 & Hs).
+  exists g'. split; auto. split; auto.
+  destruct Hs as [Hs|[Hs|Hs]]; rewrite Hs; split; try discriminate; reflexivity.
+Qed.
+Print Assumptions C03_history_changed_never_skipped.
 
 (** [PH.history_changes] is what [classify] feeds to [find] once the log text is parsed. *)
 Theorem C03_classify_unfold :
